@@ -136,12 +136,29 @@ func c10exactFixed(x *big.Rat, pct, d int) string {
 // ---------------------------------------------------------------------------
 // building one fmt op
 
+// c10o: the Options a File was opened with, as far as format reads them
+type c10o struct {
+	culture                   int
+	short, longDate, longTime string
+}
+
+func (o *c10o) options() *xl.Options {
+	if o == nil {
+		return nil
+	}
+	return &xl.Options{CultureInfo: xl.CultureName(o.culture), ShortDatePattern: o.short, LongDatePattern: o.longDate, LongTimePattern: o.longTime}
+}
+
 type c10case struct {
 	cellNumeric, d1904 bool
 	value, code        string
+	o                  *c10o
 }
 
 func (c c10case) replay() string {
+	if c.o != nil {
+		return fmt.Sprintf("caseo %s %s %s %s %d %s %s %s", b01(c.cellNumeric), b01(c.d1904), hx(c.value), hx(c.code), c.o.culture, hx(c.o.short), hx(c.o.longDate), hx(c.o.longTime))
+	}
 	return fmt.Sprintf("case %s %s %s %s", b01(c.cellNumeric), b01(c.d1904), hx(c.value), hx(c.code))
 }
 
@@ -241,7 +258,29 @@ func c10build(c c10case) c10built {
 	keys := map[string]bool{"": true}
 	ok := true
 	hasEraTok := false
-	for _, s := range b.secs {
+	var ldSecs, ltSecs []nfp.Section
+	hasLD, hasLT := false, false
+	if c.o != nil {
+		if c.o.culture == 2 || c.o.culture == 3 || c.o.culture == 5 {
+			ok = false // era / Dangi year handlers: not modelled
+			b.why = "culture"
+		}
+		var pp string
+		if c.o.longDate != "" {
+			hasLD = true
+			if ldSecs, pp = c10parse(c.o.longDate); pp != "" {
+				ok = false
+			}
+		}
+		if c.o.longTime != "" {
+			hasLT = true
+			if ltSecs, pp = c10parse(c.o.longTime); pp != "" {
+				ok = false
+			}
+		}
+	}
+	allSecs := append(append(append([]nfp.Section{}, b.secs...), ldSecs...), ltSecs...)
+	for _, s := range allSecs {
 		for _, t := range s.Items {
 			if strings.ToUpper(t.TValue) != c10asciiUpper(t.TValue) {
 				ok = false
@@ -293,26 +332,38 @@ func c10build(c c10case) c10built {
 			hx(l0.Month3), hx(l0.Month4), hx(l0.Month5), hx(l0.WeekdayAbbr), hx(l0.Weekday),
 			hx(l1.Month3), hx(l1.Month4), hx(l1.Month5), hx(l1.WeekdayAbbr), hx(l1.Weekday))
 	}
-	fmt.Fprintf(&sb, " S %d", len(b.secs))
-	for _, s := range b.secs {
-		fmt.Fprintf(&sb, " %s %d", s.Type, len(s.Items))
-		for _, t := range s.Items {
-			if t.TType == "" || strings.ContainsAny(t.TType, " \t") {
-				ok = false
-			}
-			fmt.Fprintf(&sb, " %s %s %d", t.TType, hx(t.TValue), len(t.Parts))
-			for _, p := range t.Parts {
-				lok := false
-				if p.Token.TType == nfp.TokenSubTypeLanguageInfo {
-					lok = rows[strings.ToUpper(c10effLang(p.Token.TValue))].OK
+	writeSecs := func(secs []nfp.Section) {
+		fmt.Fprintf(&sb, " %d", len(secs))
+		for _, s := range secs {
+			fmt.Fprintf(&sb, " %s %d", s.Type, len(s.Items))
+			for _, t := range s.Items {
+				if t.TType == "" || strings.ContainsAny(t.TType, " \t") {
+					ok = false
 				}
-				pt := p.Token.TType
-				if pt == "" {
-					pt = "_"
+				fmt.Fprintf(&sb, " %s %s %d", t.TType, hx(t.TValue), len(t.Parts))
+				for _, p := range t.Parts {
+					lok := false
+					if p.Token.TType == nfp.TokenSubTypeLanguageInfo {
+						lok = rows[strings.ToUpper(c10effLang(p.Token.TValue))].OK
+					}
+					pt := p.Token.TType
+					if pt == "" {
+						pt = "_"
+					}
+					fmt.Fprintf(&sb, " %s %s %s", pt, hx(p.Token.TValue), b01(lok))
 				}
-				fmt.Fprintf(&sb, " %s %s %s", pt, hx(p.Token.TValue), b01(lok))
 			}
 		}
+	}
+	sb.WriteString(" S")
+	writeSecs(b.secs)
+	sb.WriteString(" O " + b01(hasLD))
+	if hasLD {
+		writeSecs(ldSecs)
+	}
+	sb.WriteString(" " + b01(hasLT))
+	if hasLT {
+		writeSecs(ltSecs)
 	}
 	if i := strings.IndexAny(c.value, "eE"); i >= 0 && c10decRe.MatchString(c.value) {
 		if e, err := strconv.Atoi(c.value[i+1:]); err != nil || e > 400 || e < -400 {
@@ -587,7 +638,7 @@ func c10fmt(r *Run, c c10case) (string, bool) {
 	if c.cellNumeric {
 		ct = xl.CellTypeNumber
 	}
-	res := c10guard(func() string { return xl.VerifC10Format(c.value, c.code, c.d1904, ct, nil) })
+	res := c10guard(func() string { return xl.VerifC10Format(c.value, c.code, c.d1904, ct, c.o.options()) })
 	cls := c10class(c, b.isNum)
 	r.Stat("class:" + cls)
 	r.Stat(fmt.Sprintf("sections:%d", len(b.secs)))
@@ -827,10 +878,19 @@ func atoi(s string) int { n, _ := strconv.Atoi(s); return n }
 // c10dateCase renders a serial under a date template and checks the fields against the instant
 // serial days after 1899-12-30 (1900 system, serial >= 61) or 1904-01-01 (1904 system).
 func c10dateCase(r *Run, value string, d1904 bool, tpl c10dt) {
-	c := c10case{true, d1904, value, tpl.code}
+	c := c10case{true, d1904, value, tpl.code, nil}
 	out, ok := c10fmt(r, c)
+	if !ok {
+		return
+	}
+	c10checkDate(r, out, value, d1904, tpl, c.replay(), "", c10lastLine)
+}
+
+// c10checkDate: the rendered text `out` of serial `value` under the date template must show the fields
+// of the serial's calendar instant in the given date system. `via` names the path for the signature.
+func c10checkDate(r *Run, out, value string, d1904 bool, tpl c10dt, rep, via string, line int) {
 	x, xok := c10exact(value)
-	if !ok || !xok || x.Sign() < 0 {
+	if !xok || x.Sign() < 0 {
 		return
 	}
 	// total seconds of the serial, floor and nearest
@@ -853,9 +913,8 @@ func c10dateCase(r *Run, value string, d1904 bool, tpl c10dt) {
 		base = time.Date(1904, 1, 1, 0, 0, 0, 0, time.UTC)
 	}
 	m := tpl.re.FindStringSubmatch(out)
-	rep := c.replay()
 	if m == nil {
-		r.Fail("date:shape:"+tpl.kind, fmt.Sprintf("format(%q, %q) = %q does not have the shape of the code", value, tpl.code, out), 0, rep)
+		r.Fail("date:shape:"+tpl.kind+via, fmt.Sprintf("%q under %q%s = %q does not have the shape of the code", value, tpl.code, via, out), line, rep)
 		return
 	}
 	match := false
@@ -906,10 +965,10 @@ func c10dateCase(r *Run, value string, d1904 bool, tpl c10dt) {
 		}
 	}
 	if match {
-		r.Stat("date-ok:" + tpl.kind)
+		r.Stat("date-ok:" + tpl.kind + via)
 		return
 	}
-	sig := "date:fields:" + tpl.kind
+	sig := "date:fields:" + tpl.kind + via
 	switch tpl.kind {
 	case "eh", "em", "es":
 		sig = "date:elapsed"
@@ -919,7 +978,83 @@ func c10dateCase(r *Run, value string, d1904 bool, tpl c10dt) {
 			sig += ":beyond-duration-range"
 		}
 	}
-	r.Fail(sig, fmt.Sprintf("format(%q, %q) date1904=%v = %q, the serial's instant gives %s (seconds floored) or %s (nearest second)", value, tpl.code, d1904, out, wants[0], wants[1]), 0, rep)
+	r.Fail(sig, fmt.Sprintf("%q under %q%s date1904=%v = %q, the serial's instant gives %s (seconds floored) or %s (nearest second)", value, tpl.code, via, d1904, out, wants[0], wants[1]), line, rep)
+}
+
+// ---------------------------------------------------------------------------
+// options layer: Date1904 x Long/Short date and time patterns x system-tag formats
+
+var c10sysDateTags = []string{"[$-F800]", "[$-x-sysdate]", "[$-1010000]", "[$-f800]"}
+var c10sysTimeTags = []string{"[$-F400]", "[$-x-systime]"}
+
+// c10optDate: a date template is installed as an Options pattern and reached through a system tag
+// (or a built-in id for the short pattern); the text GetCellValue returns must show the fields of
+// the serial in the workbook's date system. Also emitted as a transcript line (hook + model).
+func c10optDate(r *Run, value string, d1904 bool, ti int, kind string, tagi int) {
+	tpl := c10dtCodes[ti]
+	rep := fmt.Sprintf("optdate %s %s %d %s %d", b01(d1904), hx(value), ti, kind, tagi)
+	o := &c10o{culture: 1}
+	var code string
+	id := 0
+	switch kind {
+	case "longdate":
+		o.longDate = tpl.code
+		code = c10sysDateTags[tagi%len(c10sysDateTags)] + "dddd, mmmm dd, yyyy"
+	case "longtime":
+		o.longTime = tpl.code
+		code = c10sysTimeTags[tagi%len(c10sysTimeTags)] + "h:mm:ss AM/PM"
+	case "short14":
+		o.short = tpl.code
+		id = 14
+	default:
+		return
+	}
+	r.Case(rep, true)
+	r.Stat("optdate:" + kind)
+	// (a) the unexported format with the same options: transcript line + model
+	if id == 0 {
+		out, ok := c10fmt(r, c10case{true, d1904, value, code, o})
+		if ok {
+			c10checkDate(r, out, value, d1904, tpl, rep, ":options-"+kind+":format", c10lastLine)
+		}
+	}
+	// (b) the public API on a workbook of that date system
+	res := c10guard(func() string {
+		f := xl.NewFile(*o.options())
+		defer f.Close()
+		if d1904 {
+			t := true
+			if err := f.SetWorkbookProps(&xl.WorkbookPropsOptions{Date1904: &t}); err != nil {
+				return "ERR:" + err.Error()
+			}
+		}
+		st := &xl.Style{NumFmt: id}
+		if id == 0 {
+			st = &xl.Style{CustomNumFmt: &code}
+		}
+		sid, err := f.NewStyle(st)
+		if err != nil {
+			return "ERR:" + err.Error()
+		}
+		_ = f.SetCellDefault("Sheet1", "A1", value)
+		_ = f.SetCellStyle("Sheet1", "A1", "A1", sid)
+		got, err := f.GetCellValue("Sheet1", "A1")
+		if err != nil {
+			return "ERR:" + err.Error()
+		}
+		return "ok:" + got
+	})
+	switch {
+	case res.hang || res.panic != "":
+		r.Fail("optdate:panic", fmt.Sprintf("GetCellValue of %q (%s=%q, date1904=%v) panics/hangs: %s", value, kind, tpl.code, d1904, res.panic), 0, rep)
+	case strings.HasPrefix(res.s, "ok:"):
+		if isNum, prec, dec := xl.VerifC10IsNumeric(value); !isNum || prec > 15 || strconv.FormatFloat(dec, 'f', -1, 64) != value {
+			return // the cell reader would normalise the stored text first
+		}
+		c10checkDate(r, strings.TrimPrefix(res.s, "ok:"), value, d1904, tpl, rep, ":options-"+kind+":GetCellValue", 0)
+	default:
+		r.Fail("optdate:error", fmt.Sprintf("GetCellValue of %q (%s=%q): %s", value, kind, tpl.code, res.s), 0, rep)
+	}
 }
 
 // ---------------------------------------------------------------------------
@@ -1249,26 +1384,26 @@ func runC10(r *Run, rng *Rng, replay string) {
 	}
 	// 0. witnesses of known findings and regression anchors (deterministic, every run)
 	for _, c := range []c10case{
-		{true, false, "0", `0.00;-0.00;"zero"`},
-		{true, false, "0", `#,##0.00;(#,##0.00);"-"`},
-		{true, false, "5", `[>=100]0.0;[<100]0.000`},
-		{true, false, "5", `[foo]0.0`},
-		{true, false, "1234567890123.4568", "0.000"},
-		{true, false, "12345678901234.567", "0.00"},
-		{true, false, "1e16", "0.00%%"},
-		{true, false, "5", "[<0]0.0_)"},
-		{true, false, "12.34", "#,##0%"},
-		{true, false, "1234567", "#,##0%"},
-		{true, false, "1234567.891", "#,##0.00"},
-		{true, false, "-1234.5", "#,##0.00;(#,##0.00)"},
-		{true, false, "abc", `0.00;;;"t:"@`},
-		{true, false, "1.005", "0.00"},
-		{true, false, "2.5", "0"},
-		{true, false, "0.5", "0%"},
-		{true, false, "123456", "0.00E+00"},
-		{true, false, "123456789012345", "General"},
-		{true, true, "43831.75", "yyyy-mm-dd hh:mm:ss"},
-		{true, false, "0.4999999", "AM/PM h:mm:ss"},
+		{true, false, "0", `0.00;-0.00;"zero"`, nil},
+		{true, false, "0", `#,##0.00;(#,##0.00);"-"`, nil},
+		{true, false, "5", `[>=100]0.0;[<100]0.000`, nil},
+		{true, false, "5", `[foo]0.0`, nil},
+		{true, false, "1234567890123.4568", "0.000", nil},
+		{true, false, "12345678901234.567", "0.00", nil},
+		{true, false, "1e16", "0.00%%", nil},
+		{true, false, "5", "[<0]0.0_)", nil},
+		{true, false, "12.34", "#,##0%", nil},
+		{true, false, "1234567", "#,##0%", nil},
+		{true, false, "1234567.891", "#,##0.00", nil},
+		{true, false, "-1234.5", "#,##0.00;(#,##0.00)", nil},
+		{true, false, "abc", `0.00;;;"t:"@`, nil},
+		{true, false, "1.005", "0.00", nil},
+		{true, false, "2.5", "0", nil},
+		{true, false, "0.5", "0%", nil},
+		{true, false, "123456", "0.00E+00", nil},
+		{true, false, "123456789012345", "General", nil},
+		{true, true, "43831.75", "yyyy-mm-dd hh:mm:ss", nil},
+		{true, false, "0.4999999", "AM/PM h:mm:ss", nil},
 	} {
 		c10fmt(r, c)
 	}
@@ -1295,7 +1430,7 @@ func runC10(r *Run, rng *Rng, replay string) {
 		"#,##0.00;[Red](#,##0.00)", `0.0;-0.0;"zero";"t:"@`, "yyyy-mm-dd hh:mm:ss", "[h]:mm:ss", "h:mm AM/PM", "#,##0%", "0.0##", "#.#", "00000", "[$-409]mmmm d, yyyy"}
 	for _, v := range c10values {
 		for _, code := range grid {
-			c10fmt(r, c10case{true, false, v, code})
+			c10fmt(r, c10case{true, false, v, code, nil})
 		}
 	}
 	// 3. random structured cases
@@ -1345,7 +1480,7 @@ func runC10(r *Run, rng *Rng, replay string) {
 		if rng.Chance(15) {
 			code = "0." + strings.Repeat("0", rng.Range(1, 20)) + "E+00"
 		}
-		c10fmt(r, c10case{true, false, c10randValue(rng), code})
+		c10fmt(r, c10case{true, false, c10randValue(rng), code, nil})
 	}
 	// 5. sign twins
 	for i := 0; i < 150*scale; i++ {
@@ -1381,6 +1516,32 @@ func runC10(r *Run, rng *Rng, replay string) {
 			frac = fmt.Sprintf("%06d", rng.Intn(1000000))
 		}
 		c10dateCase(r, fmt.Sprintf("%d.%s", day, frac), rng.Chance(30), c10dtCodes[rng.Intn(len(c10dtCodes))])
+	}
+	// 6b. options layer: both date systems x long-date / long-time / short patterns x system tags
+	c10optDate(r, "43543.50320601852", true, 0, "longdate", 0)
+	c10optDate(r, "43543.50320601852", true, 0, "longdate", 1)
+	c10optDate(r, "45000.75", true, 0, "longtime", 0)
+	c10optDate(r, "45000.75", true, 0, "short14", 0)
+	for i := 0; i < 120*scale; i++ {
+		day := rng.Pick2([]int{61, 62, 366, 1462, 36526, 43831, 45000, 73050, 100000, rng.Range(61, 2900000)})
+		v := fmt.Sprintf("%d.%s", day, rng.Pick([]string{"0", "5", "25", "75", "125", "50320601852", fmt.Sprintf("%05d", rng.Intn(100000))}))
+		if f, err := strconv.ParseFloat(v, 64); err == nil {
+			v = strconv.FormatFloat(f, 'f', -1, 64)
+		}
+		ti := rng.Pick2([]int{0, 1, 3, 4, 5, 9, 10})
+		kind := rng.Pick([]string{"longdate", "longdate", "longtime", "short14"})
+		c10optDate(r, v, rng.Bool(), ti, kind, rng.Intn(4))
+	}
+	// options on arbitrary codes (transcript): patterns x tags x cultures without an era calendar
+	for i := 0; i < 150*scale; i++ {
+		o := &c10o{culture: rng.Pick2([]int{0, 1, 4}), short: rng.Pick([]string{"", "yyyy/m/d"}),
+			longDate: rng.Pick([]string{"", "dddd, mmmm dd, yyyy", "yyyy-mm-dd", "[$-F800]yyyy", "[$-409]d mmmm yyyy"}),
+			longTime: rng.Pick([]string{"", "h:mm:ss AM/PM", "hh:mm", "[$-F400]h:mm"})}
+		code := rng.Pick(c10locales) + rng.Pick([]string{"dddd, mmmm dd, yyyy", "h:mm:ss AM/PM", "yyyy-mm-dd hh:mm", "0.00", "#,##0", "d/m/yy \"x\""})
+		if rng.Chance(25) {
+			code = c10dateCode(rng)
+		}
+		c10fmt(r, c10case{true, rng.Chance(40), rng.Pick([]string{"43831.75", "0.5", "1", "45000.25", "-1", "abc", "61.5", "1462"}), code, o})
 	}
 	// 7. locales: every language id / code through AM/PM, month and weekday tokens
 	ids, codes := xl.VerifC10LanguageCodes()
@@ -1428,13 +1589,17 @@ func c10replay(r *Run, path string) {
 		}
 		switch {
 		case w[0] == "case" && len(w) == 5:
-			c10fmt(r, c10case{w[1] == "1", w[2] == "1", unhx(w[3]), unhx(w[4])})
+			c10fmt(r, c10case{w[1] == "1", w[2] == "1", unhx(w[3]), unhx(w[4]), nil})
 			// date templates carry their own oracle
 			for _, t := range c10dtCodes {
 				if t.code == unhx(w[4]) {
 					c10dateCase(r, unhx(w[3]), w[2] == "1", t)
 				}
 			}
+		case w[0] == "caseo" && len(w) == 9:
+			c10fmt(r, c10case{w[1] == "1", w[2] == "1", unhx(w[3]), unhx(w[4]), &c10o{atoi(w[5]), unhx(w[6]), unhx(w[7]), unhx(w[8])}})
+		case w[0] == "optdate" && len(w) == 6:
+			c10optDate(r, unhx(w[2]), w[1] == "1", atoi(w[3]), w[4], atoi(w[5]))
 		case w[0] == "comma" && len(w) == 2:
 			c10comma(r, unhx(w[1]))
 		case w[0] == "twin" && len(w) == 4:
@@ -1594,7 +1759,7 @@ func c10histories(r *Run, hs []c10hist) {
 		r.Stat("history")
 		// (a) through the hook, one call after the other in this process (each call is also a transcript line)
 		for j, v := range h.vals {
-			got, ok := c10fmt(r, c10case{true, false, v, h.code})
+			got, ok := c10fmt(r, c10case{true, false, v, h.code, nil})
 			line := c10lastLine
 			want := solo[j][i]
 			if !ok || want == "" {
